@@ -160,7 +160,7 @@ def finish(pid, tier, seed, prof, recs, libs, timeout, known, t0, a, extra_cov=N
             if exit_code == 0:
                 exit_code = 1
     ginfo = {}
-    if hasattr(prof, "global_check") and not failing:
+    if hasattr(prof, "global_check"):
         gv, ginfo = prof.global_check(total)
         for v in gv:
             n_viol += 1
